@@ -43,4 +43,19 @@ def sunlitFraction (wallHasPosition : Bool) (ndot : Rat) (origins : List V3) (di
   else if origins.isEmpty then 1
   else 1 - ((origins.filter (blocked occ dir)).length : Nat) / (origins.length : Nat)
 
+/-- bracket of the sunlit fraction an f32 computation may report: points firmly lit / firmly hidden / too close to call
+(the bounding-box pre-test is not used here: a firm polygon hit lies inside the box) -/
+def sunlitBracket (wallHasPosition : Bool) (ndot : Rat) (origins : List V3) (dir : V3) (occ : List Occ) : Rat × Rat :=
+  if !wallHasPosition then (1, 1)
+  else if ndot < 1 / 100 then (0, 0)
+  else if origins.isEmpty then (1, 1)
+  else
+    let cls := origins.map (fun o =>
+      let fs := occ.map (fun oc => firmRayPolygon oc.inv oc.poly { o := o, d := dir } (1 / 2000) (1 / 500))
+      if fs.any (· == Firm.hit) then Firm.hit else if fs.any (· == Firm.unsure) then Firm.unsure else Firm.miss)
+    let n : Rat := (origins.length : Nat)
+    let hit : Rat := ((cls.filter (· == Firm.hit)).length : Nat)
+    let uns : Rat := ((cls.filter (· == Firm.unsure)).length : Nat)
+    (1 - (hit + uns) / n, 1 - hit / n)
+
 end Cte
